@@ -337,6 +337,57 @@ static void fastreset_history(void)
     free(arena); LZ4_freeStream(st);
 }
 
+/* ---- a CONTIGUOUS streaming session of LZ4_compress_fast_continue on a freshly reset stream, recorded whole (op 15) so that the Lean model of the prefix
+ * mode (Model/FastS.lean: the FastR loop run on [source - dictSize, source + n) from position dictSize) replays it: every return value and block identical.
+ * Log-like records, pieces of earlier blocks copied in (matches reaching into the prefix), sizes incl. 0, < 13, around 64 KB; capacities mostly the bound,
+ * sometimes tight: the session ends with the first call that returns 0.  Every block is decoded against the preceding 64 KB by the real decoder. ---- */
+static u64 n_cs_hist, n_cs_calls, n_cs_failed, n_cs_reused, n_cs_stale;
+static void contig_stream_history(int thorough)
+{
+    enum { MAXC = 13 };
+    LZ4_stream_t* st = LZ4_createStream(); int nc = 2 + (int)rndn(MAXC - 1), k; rec_t r; size_t total = 0, off = 0; u8* arena; size_t sz[MAXC]; u8* outs[MAXC]; int nouts = 0; u8* tbkeep = NULL;
+    static const size_t special[] = {0, 1, 12, 13, 14, 4095, 4097, 65535, 65536, 65547, 70000};
+    static const char* const pre[] = {"2026-09-29T08:00:", "GET /index.html?id=", "user=bob action=", "WARN retry while ", "", "zzzzzzzzzzzzzzzzzzzzzz"};
+    for (k = 0; k < nc; k++) { sz[k] = rndp(80) ? 20 + rndn(rndp(70) ? 1500 : (thorough ? 40000 : 9000)) : special[rndn(11)]; total += sz[k]; }
+    arena = xalloc(total + 1);
+    /* an earlier, unrelated life of the stream (C18): the table and currentOffset it leaves behind survive LZ4_resetStream_fast when they are byU32 */
+    { int life = (int)rndn(6); size_t jn = life == 1 ? 65536 + rndn(30000) : 200 + rndn(6000); u8* junk = xalloc(jn + 1); u8* jo = xalloc((size_t)LZ4_compressBound((int)jn) + 1); size_t i;
+      for (i = 0; i < jn; i++) junk[i] = rndp(50) ? (u8)('0' + rndn(10)) : (u8)pre[rndn(4)][i % 16];
+      if (life == 1 || life == 2) { LZ4_compress_fast_extState_fastReset(st, (const char*)junk, (char*)jo, (int)jn, LZ4_compressBound((int)jn), 1); n_cs_reused++; }          /* byU32 (>= 64 KB) or byU16 one-shot */
+      else if (life == 3) { int b; size_t o = 0; LZ4_resetStream_fast(st); for (b = 0; b < 4 && o + 100 < jn; b++) { size_t l = 50 + rndn((u32)(jn - o - 50)); LZ4_compress_fast_continue(st, (const char*)junk + o, (char*)jo, (int)l, LZ4_compressBound((int)l), 1); o += l; } n_cs_reused++; }
+      else if (life == 4) { LZ4_loadDict(st, (const char*)junk, (int)jn); n_cs_reused++; }
+      else if (life == 5) { int b, nb = 1 + (int)rndn(thorough ? 12 : 5); for (b = 0; b < nb; b++) { LZ4_resetStream_fast(st); LZ4_compress_fast_continue(st, (const char*)junk, (char*)jo, (int)jn, LZ4_compressBound((int)jn), 1); } n_cs_reused++; }   /* the 64 KB gaps add up */
+      free(junk); free(jo); }
+    LZ4_resetStream_fast(st);
+    rec_begin(&r, 15); rec_int(&r, nc);
+    { const LZ4_stream_t_internal* in = &st->internal_donotuse; u8* tb = xalloc(4 * LZ4_HASH_SIZE_U32); int i, nz = 0;
+      for (i = 0; i < LZ4_HASH_SIZE_U32; i++) { u32 v = in->hashTable[i]; tb[4*i] = (u8)v; tb[4*i+1] = (u8)(v >> 8); tb[4*i+2] = (u8)(v >> 16); tb[4*i+3] = (u8)(v >> 24); nz |= v != 0; }
+      rec_bytes(&r, tb, nz ? 4 * LZ4_HASH_SIZE_U32 : 0); rec_int(&r, (int)in->currentOffset); if (nz) n_cs_stale++; tbkeep = tb; }
+    for (k = 0; k < nc; k++) {
+        u8* src = arena + off; size_t n = sz[k], i = 0; int bound = LZ4_compressBound((int)n), cap, acc = (int[]){1, 1, 1, 2, 7, 0, 70000}[rndn(7)], ret, d; u8* dst; u8* chk;
+        while (i < n) { const char* p = pre[rndn(6)]; size_t l = strlen(p), m; if (l > n - i) l = n - i; memcpy(src + i, p, l); i += l; m = rndn(40); while (m-- && i < n) src[i++] = rndp(60) ? (u8)('0' + rndn(10)) : (u8)rnd(); if (i < n) src[i++] = '\n'; }
+        if (k > 0 && n >= 16 && off > 0 && rndp(60)) { size_t from = rndn((u32)off), l = 8 + rndn(300); if (l > n) l = n; if (from + l > off) l = off - from; memcpy(src + rndn((u32)(n - l + 1)), arena + from, l); }   /* a piece of the prefix */
+        if (k > 0 && n >= 8 && off >= 8 && rndp(30)) memcpy(src, arena + off - 8, 8);                                          /* the block starts like the prefix ends: catch-up into the prefix */
+        cap = rndp(85) ? bound : rndp(50) ? bound + (int)rndn(20) : (int)rndn((u32)bound + 1);
+        dst = xalloc((size_t)(cap > 0 ? cap : 0)); outs[nouts++] = dst;
+        ret = LZ4_compress_fast_continue(st, (const char*)src, (char*)dst, (int)n, cap, acc); n_calls++; n_cs_calls++;
+        rec_bytes(&r, src, n); rec_int(&r, acc); rec_int(&r, cap); rec_int(&r, ret); rec_bytes(&r, dst, ret > 0 && ret <= cap ? (size_t)ret : 0);
+        cur_set(&r);
+        if (ret < 0 || ret > cap) c_fail(&r, "ret_gt_cap");
+        else if (ret == 0 && cap >= bound) c_fail(&r, "continue_failed_at_bound");
+        else if (ret > 0) { size_t hs = off < 65536 ? off : 65536; chk = xalloc(n);
+            d = LZ4_decompress_safe_usingDict((const char*)dst, (char*)chk, ret, (int)n, (const char*)(arena + off - hs), (int)hs); n_blocks++;
+            if (d != (int)n || (n && memcmp(chk, src, n) != 0)) c_fail(&r, "block_does_not_decode_against_history"); free(chk); }
+        cur_clear();
+        off += n;
+        if (ret <= 0) { n_cs_failed++; nc = k + 1; break; }      /* after an error the stream can only be reset: the session ends */
+    }
+    r.ints[0] = (u64)nc;
+    rec_write(&r); n_cs_hist++;
+    for (k = 0; k < nouts; k++) free(outs[k]);
+    free(tbkeep); free(arena); LZ4_freeStream(st);
+}
+
 static void ring_restart_scenario(int family)
 {
     static u8 keys[64][8]; static int keysInit = 0; size_t rec = 12, bs, ring, s0, pos, k; int nblocks, i; u8* ringbuf; u8* dst;
@@ -380,9 +431,10 @@ int main(int argc, char** argv)
     if (!strcmp(mode, "c18")) long_stream_renorm_scenario_x(1);
     if (!strcmp(mode, "c11")) { long_stream_renorm_scenario_hc(thorough ? 2 : 3); if (thorough) { long_stream_renorm_scenario_hc(3); long_stream_renorm_scenario_hc(9); } }
     if (!strcmp(mode, "c18")) for (i = 0; i < (thorough ? 20000 : 1500); i++) fastreset_history();
+    if (!strcmp(mode, "c11") || !strcmp(mode, "c18")) for (i = 0; i < (thorough ? 8000 : 700); i++) contig_stream_history(thorough);
     harness_done();
     stat_u("calls", n_calls); stat_u("blocks_checked", n_blocks); stat_u("limited_output_failures", n_fail_ret0); stat_u("saveDict", n_saves); stat_u("loadDict", n_loads); stat_u("attach", n_attach);
-    stat_u("resets", n_resets); stat_u("fastReset_oneshots", n_oneshots); stat_u("continue_destSize", n_destsize); stat_u("ring_wraps", n_wraps); stat_u("streams_beyond_2GiB", n_renorm); stat_u("fastReset_histories", n_fr_hist); stat_u("fastReset_history_calls", n_fr_calls); stat_u("records", g_nrecords);
+    stat_u("resets", n_resets); stat_u("fastReset_oneshots", n_oneshots); stat_u("continue_destSize", n_destsize); stat_u("ring_wraps", n_wraps); stat_u("streams_beyond_2GiB", n_renorm); stat_u("fastReset_histories", n_fr_hist); stat_u("contiguous_stream_sessions", n_cs_hist); stat_u("contiguous_stream_calls", n_cs_calls); stat_u("contiguous_stream_sessions_on_reused_stream", n_cs_reused); stat_u("contiguous_stream_sessions_starting_with_stale_table", n_cs_stale); stat_u("contiguous_stream_sessions_ended_by_failure", n_cs_failed); stat_u("fastReset_history_calls", n_fr_calls); stat_u("records", g_nrecords);
     stat_u("cfails", (u64)g_cfails);
     free(dictbuf); free(g_hist); free(g_ring);
     return g_cfails ? 1 : 0;
